@@ -118,7 +118,7 @@ group_t get_groups(const cJSON *peer_groups)
 			for (unsigned int j = 0; j < all_groups_array_size; ++j) {
 				const cJSON *group = cJSON_GetArrayItem(all_groups, j);
 				if (strcmp(group->valuestring, peer_group->valuestring) == 0) {
-					groups |= (1 << j);
+					groups |= ((group_t)1 << j);
 				}
 			}
 		}
